@@ -51,7 +51,23 @@ func allTerms(p *Program) []Term {
 
 // Mutate applies one mutation in place and describes it ("" if none applied).
 func Mutate(p *Program, intn func(int) int) string {
-	switch intn(13) {
+	switch intn(15) {
+	case 13, 14: // a case lists one label twice (and so may hide a missing one)
+		var cands []*Case
+		for _, t := range allTerms(p) {
+			if x, ok := t.(*Case); ok && len(x.Brs) >= 2 {
+				cands = append(cands, x)
+			}
+		}
+		if len(cands) == 0 {
+			return ""
+		}
+		x := cands[intn(len(cands))]
+		i := intn(len(x.Brs))
+		j := (i + 1 + intn(len(x.Brs)-1)) % len(x.Brs)
+		old := x.Brs[j].Label
+		x.Brs[j].Label = x.Brs[i].Label
+		return fmt.Sprintf("case %s: label %s replaced by a second %s", x.From, old, x.Brs[i].Label)
 	case 11, 12: // a closed body replaced by `h(self)` for some parameterless definition h (of whatever type)
 		var nullary []*Def
 		for _, d := range p.Defs {
